@@ -169,9 +169,12 @@ func parseArgs(argStr string) []string {
 		case (ch == '"' || ch == '\'') && !inQuote:
 			inQuote = true
 			quoteChar = ch
+			// keep the quotes: resolveArgument tells literals from variable names by them
+			current.WriteRune(ch)
 		case ch == quoteChar && inQuote:
 			inQuote = false
 			quoteChar = 0
+			current.WriteRune(ch)
 		case ch == ',' && !inQuote:
 			if current.Len() > 0 {
 				args = append(args, strings.TrimSpace(current.String()))
